@@ -52,11 +52,20 @@ def species_obj(I, repo, kind, misc, phase=None, add=None):
     return o, co
 
 
-def bare(I, repo, kind, co, q, T):
-    """polynomial value without attached models, from the coefficients the rule handed to the constructor"""
+def bare(I, repo, kind, co, q, T, hi=False):
+    """polynomial value without attached models, from the coefficients the rule handed to the constructor (hi: T is
+    above T_mid, a NASA-7 species answers from its high-temperature coefficients)"""
+    memo = co.setdefault('memo', {})
+    k_ = (q, repr(T), hi)
+    if k_ not in memo:
+        memo[k_] = _bare(I, repo, kind, co, q, T, hi)
+    return memo[k_]
+
+
+def _bare(I, repo, kind, co, q, T, hi):
     if kind == 'Nasa':
         m = repo.module(NASA)
-        f = lambda qq: I.call_function(m, m.functions['get_nasa_' + qq], [], {'a': co['lo'], 'T': T})
+        f = lambda qq: I.call_function(m, m.functions['get_nasa_' + qq], [], {'a': co['hi' if hi else 'lo'], 'T': T})
     elif kind == 'Nasa9':
         m = repo.module(NASA)
         f = lambda qq: I.call_function(m, m.functions['get_nasa9_' + qq], [], {'a': co['s'], 'T': T})
@@ -75,7 +84,8 @@ def bare(I, repo, kind, co, q, T):
 
 
 def ranks(n):
-    r = {'sp.T_low': 1, 'sp.T_mid': 50, 'sp.T_high': 90, 'seg0.T_low': 1, 'seg0.T_high': 90, 'T': 10}
+    r = {'sp.T_low': 1, 'sp.T_mid': 50, 'sp.T_high': 90, 'seg0.T_low': 1, 'seg0.T_high': 90, 'T': 10,
+         'Tu': 60, 'Td': 5}
     for i in range(n):
         r['T%d' % i] = 10 + i
     return r
@@ -118,21 +128,21 @@ def summation(run, repo, max_len, thorough=False):
                     return v.scalar + v.elem if v.elem.iszero() else v
                 return v
 
-            def dimless(q0, Tv):
+            def dimless(q0, Tv, hi=False):
                 if q0 == 'GoRT':
-                    return dimless('HoRT', Tv) - dimless('SoR', Tv)
-                v = bare(I, repo, kind, co, q0, Tv) + attached_sum(I, models, q0, T=Tv, P=P, x=x)
+                    return dimless('HoRT', Tv, hi) - dimless('SoR', Tv, hi)
+                v = bare(I, repo, kind, co, q0, Tv, hi) + attached_sum(I, models, q0, T=Tv, P=P, x=x)
                 if own and q0 == 'SoR':
                     v = v - D.ln(P)
                 return v
 
-            def want_at(Tv):
+            def want_at(Tv, hi=False):
                 if q in DIM:
                     q0, u, timesT = DIM[q]
                     # R in the requested molar unit, written out: kb * Na * (J -> unit)
-                    v = dimless(q0, Tv) * D.sym('kb') * D.sym('Na') * I.unit(u.split('/')[0])
+                    v = dimless(q0, Tv, hi) * D.sym('kb') * D.sym('Na') * I.unit(u.split('/')[0])
                     return v * Tv if timesT else v
-                return dimless(q, Tv)
+                return dimless(q, Tv, hi)
             # scalar
             T = D.sym('T')
             got = flat(I.call_method(o, 'get_' + q, [], dict({'T': T, 'P': P, 'x': x}, **extra)))
@@ -147,7 +157,8 @@ def summation(run, repo, max_len, thorough=False):
             n += 1
             # arrays
             bad = None
-            for L in range(1, max_len + 1):
+            # quick: the two extra phases of the two-model instance with an array of two temperatures only
+            for L in (range(1, max_len + 1) if thorough or phase is None or k != 2 else (2,)):
                 Ts = [D.sym('T%d' % i) for i in range(L)]
                 arr = ListV(list(Ts))
                 arr.is_array = True
@@ -161,6 +172,25 @@ def summation(run, repo, max_len, thorough=False):
                     run.ok('BRANCH-TWIN.array', con)
                 elif bad is None:
                     bad = (L, got)
+            if k == 2 and (thorough or phase is None):
+                # temperatures in no order, one of them twice, on both sides of T_mid (a NASA-7 species answers the
+                # upper one from its high-temperature coefficients); the upper one as a scalar as well
+                Tu, Td = D.sym('Tu'), D.sym('Td')
+                got = flat(I.call_method(o, 'get_' + q, [], dict({'T': Tu, 'P': P, 'x': x}, **extra)))
+                run.check(same(got, want_at(Tu, True)), 'BRANCH-TWIN.scalar', con, 'scalar T above T_mid' + tag,
+                          'value at a scalar temperature in the upper range is %s, expected %sthe bare polynomial '
+                          '(high-temperature coefficients) plus the sum over every attached model at the same T and '
+                          'conditions%s' % (show(got, 200), dimtxt, owntxt), owner.module, fn)
+                arr = ListV([Tu, Td, Tu])
+                arr.is_array = True
+                got = I.call_method(o, 'get_' + q, [], dict({'T': arr, 'P': P, 'x': x}, **extra))
+                ok = isinstance(got, ListV) and len(got) == 3 and \
+                    all(same(flat(g), want_at(t, h)) for g, t, h in zip(got.items, (Tu, Td, Tu), (True, False, True)))
+                run.check(ok, 'BRANCH-TWIN.array', con, 'unordered array T' + tag,
+                          'for the temperatures [Tu, Td, Tu] (Td < T_mid < Tu) the result %s is not, element by '
+                          'element, %sthe bare polynomial of that element\'s range plus the sum over every attached '
+                          'model%s at that element\'s temperature' % (show(got, 260), dimtxt, owntxt), owner.module, fn)
+                n += 2
             if bad is not None:
                 run.fail('BRANCH-TWIN.array', con, 'array T' + tag,
                          'for an array of %d temperatures the result %s is not, element by element, %sthe bare '
@@ -175,19 +205,17 @@ FORMS = ('None', '[]', '[cov]', '[adj]', '[cov,adj]', '[entry]', '[cov,entry]', 
          '[cov,adj,cov]', '[cov,cov]', '[cov,entry,cov]')
 
 
-def misc_of(I, repo, fr, form, real_cov=False):
+def misc_of(I, repo, fr, form):
     """the misc_models argument spelled by `form`"""
     if form == 'None':
         return None
     D = I.D
     out = []
     for j, tok in enumerate(t for t in form.strip('[]').split(',') if t):
-        if tok == 'cov' and real_cov:
+        if tok == 'cov':
             out.append(fr.apply(repo.cls('pmutt.mixture.cov.PiecewiseCovEffect'), [],
                                 {'name_i': 'sp', 'name_j': 'B%d' % j, 'intervals': ListV([C(0), D.sym('b1')]),
                                  'slopes': ListV([D.sym('k0_%d' % j), D.sym('k1_%d' % j)])}, None))
-        elif tok == 'cov':
-            out.append(Obj('cov%d' % j, repo.cls('pmutt.mixture.cov.PiecewiseCovEffect'), attrs={'name_j': 'B%d' % j}))
         elif tok == 'adj':
             out.append(fr.apply(repo.cls(GPA), [], {}, None))
         elif tok == 'entry':
@@ -215,15 +243,17 @@ def attachment(run, repo):
                 I = Interp(repo)
                 fr = Frame(I, repo.module('pmutt'), {}, None, None)
                 misc = misc_of(I, repo, fr, form)
-                o = Obj('sp', eci, closed=True)
-                r = I.call_method(o, '__init__', [], {'name': 'sp', 'phase': phase, 'misc_models': misc,
-                                                      'add_gas_P_adj': add})
                 key = 'phase=%r misc=%s add_gas_P_adj=%s' % (phase, form, add)
-                if isinstance(r, Raised):
-                    run.fail('PATH.attach', 'EmpiricalBase.__init__', key, 'constructor raises %s' % r.exc,
+                try:
+                    o = fr.apply(eci, [], {'name': 'sp', 'phase': phase, 'misc_models': misc, 'add_gas_P_adj': add},
+                                 None)
+                except _RaisedExc as e:
+                    o = e.raised
+                if isinstance(o, Raised):
+                    run.fail('PATH.attach', 'EmpiricalBase.__init__', key, 'constructor raises %s' % o.exc,
                              owner.module, fn)
                     continue
-                mm = o.attrs.get('misc_models')
+                mm = get_public(I, o, 'misc_models')
                 items = mm.items if isinstance(mm, ListV) else []
                 n_adj = len([m_ for m_ in items if isinstance(m_, Obj) and m_.ci is gci])
                 n_dict = len([m_ for m_ in items if isinstance(m_, DictV)])
@@ -247,6 +277,44 @@ def attachment(run, repo):
                 run.check(len(others) == form.count('cov'), 'PATH.attach', 'EmpiricalBase.__init__',
                           okey + ' / other models', '[%s] other attached models are not kept exactly once' % key,
                           owner.module, fn)
+    return n
+
+
+# Not armed: the unchanged tree fails it (EmpiricalBase.__init__ appends the adjustment to the CALLER's list); see
+# /tmp/gaps2/DEFECT2_C13.md.  Set to True once the defect is fixed or recorded as known.
+ARM_SHARED_LIST = False
+
+
+def shared_list(run, repo):
+    """histories: two species built on ONE list object, the surface species before or after the gas species.  The gas
+    species carries exactly one adjustment, the surface species none - also after the other one was built - and a
+    second gas species on the same list exactly one."""
+    n = 0
+    gci = repo.cls(GPA)
+
+    def n_adj(o):
+        mm = get_public(I, o, 'misc_models')
+        return len([m_ for m_ in (mm.items if isinstance(mm, ListV) else []) if isinstance(m_, Obj) and m_.ci is gci])
+    for kind in ('Nasa', 'Nasa9', 'Shomate'):
+        ci = repo.cls((SHO if kind == 'Shomate' else NASA) + '.' + kind)
+        owner, fn = repo.find_method(ci, '__init__')
+        for form in ('[]', '[cov]'):
+            for first in ('S', 'G'):
+                I = Interp(repo, order=RankOrder(ranks(2), const_ranks=True))
+                fr = Frame(I, repo.module('pmutt'), {}, None, None)
+                shared = misc_of(I, repo, fr, form)
+                sp = {}
+                for phase in (first, 'G' if first == 'S' else 'S'):
+                    sp[phase] = species_obj(I, repo, kind, shared, phase)[0]
+                sp['G2'] = species_obj(I, repo, kind, shared, 'gas')[0]
+                got = (n_adj(sp['S']), n_adj(sp['G']), n_adj(sp['G2']))
+                run.check(got == (0, 1, 1), 'PATH.attach', kind + '.__init__',
+                          'surface and gas species built with the same list',
+                          '[misc=%s, %s species built first] a surface species and two gas species that were handed the '
+                          'same list object carry %d, %d and %d pressure adjustment(s), expected 0, 1 and 1: building a '
+                          'gas species must not attach an adjustment to another species'
+                          % (form, 'surface' if first == 'S' else 'gas', got[0], got[1], got[2]), owner.module, fn)
+                n += 1
     return n
 
 
@@ -368,7 +436,7 @@ def constructors(run, repo, thorough):
                     run.fail('PATH.attach', con, okey, '[%s] %s does not build a species: %s' % (key, route, show(o, 120)),
                              owner.module, fn)
                     continue
-                mm = o.attrs.get('misc_models')
+                mm = get_public(I, o, 'misc_models')
                 items = mm.items if isinstance(mm, ListV) else []
                 n_adj = len([m_ for m_ in items if isinstance(m_, Obj) and m_.ci is gci])
                 others = [m_ for m_ in items if not (isinstance(m_, Obj) and m_.ci is gci)]
@@ -444,22 +512,6 @@ def real_models(run, repo, thorough=False):
                           sample='%s.get_%s with [GasPressureAdj, PiecewiseCovEffect]' % (kind, q)
                           if (phase, form) == CASES[0] else None)
                 n += 1
-        # the pressure as a number: S(P) = S(1 bar) - ln(P/bar) at the ends of the range, at 1 bar and next to it
-        I = Interp(repo, order=RankOrder(ranks(2), const_ranks=True))
-        D = I.D
-        T = D.sym('T')
-        o, co = species_obj(I, repo, kind, None, 'G')
-        for q, sgn in (('SoR', -1), ('GoRT', 1)):
-            owner, fn = repo.find_method(o.ci, 'get_' + q)
-            for p_ in PRESSURES:
-                got = I.call_method(o, 'get_' + q, [], {'T': T, 'P': C(p_)})
-                if isinstance(got, SumV):
-                    got = got.scalar + got.elem if got.elem.iszero() else got
-                want = bare(I, repo, kind, co, q, T) + C(sgn) * D.ln(C(p_))
-                run.check(same(got, want), 'REF.corrections', '%s.get_%s' % (kind, q), 'pressure given as a number',
-                          'a gas species at P = %s bar gives %s, expected polynomial %s ln(%s)'
-                          % (float(p_), show(got, 200), '-' if sgn < 0 else '+', float(p_)), owner.module, fn)
-                n += 1
     # several coverage effects, each addressed through its own per-species keyword block, in several orders: every
     # model must see its own species' coverage (conditions of one model must not leak into the next, a block must
     # not be lost because of the way its species is called)
@@ -498,6 +550,45 @@ def real_models(run, repo, thorough=False):
     return n
 
 
+def numeric_pressure(run, repo):
+    """the pressure as a number (run first: decided even where a symbolic pressure is not): S(P) = S(1 bar) - ln(P/bar)
+    at the ends of the range, at 1 bar and next to it, for the adjustment a gas species attaches itself and for one
+    handed over to a species without phase; scalar T and an array of two temperatures"""
+    n = 0
+    for kind in ('Nasa', 'Nasa9', 'Shomate'):
+        for phase, form in (('G', None), (None, 'adj')):
+            I = Interp(repo, order=RankOrder(ranks(2), const_ranks=True))
+            D = I.D
+            fr = Frame(I, repo.module('pmutt'), {}, None, None)
+            T = D.sym('T')
+            misc = None if form is None else ListV([fr.apply(repo.cls(GPA), [], {}, None)])
+            o, co = species_obj(I, repo, kind, misc, phase)
+            for q, sgn in (('SoR', -1), ('GoRT', 1)):
+                owner, fn = repo.find_method(o.ci, 'get_' + q)
+                for p_ in PRESSURES:
+                    want = lambda Tv: bare(I, repo, kind, co, q, Tv) + C(sgn) * D.ln(C(p_))
+                    got = I.call_method(o, 'get_' + q, [], {'T': T, 'P': C(p_)})
+                    if isinstance(got, SumV):
+                        got = got.scalar + got.elem if got.elem.iszero() else got
+                    ok = same(got, want(T))
+                    if ok and p_ in PRESSURES[1:4]:
+                        Ts = [D.sym('T0'), D.sym('T1')]
+                        arr = ListV(list(Ts))
+                        arr.is_array = True
+                        got = I.call_method(o, 'get_' + q, [], {'T': arr, 'P': C(p_)})
+                        ok = isinstance(got, ListV) and len(got) == 2 and \
+                            all(same(g.scalar + g.elem if isinstance(g, SumV) and g.elem.iszero() else g, want(t))
+                                for g, t in zip(got.items, Ts))
+                    run.check(ok, 'REF.corrections', '%s.get_%s' % (kind, q), 'pressure given as a number',
+                              'a %s at P = %s bar gives %s, expected polynomial %s ln(%s)'
+                              % ('gas species' if phase else 'species without phase that was handed a GasPressureAdj',
+                                 float(p_), show(got, 200), '-' if sgn < 0 else '+', float(p_)), owner.module, fn,
+                              sample='%s.get_%s(T, P=%s) == poly(T) %s ln(%s)' % (kind, q, float(p_), '-' if sgn < 0 else '+', float(p_))
+                              if p_ == 10 and phase else None)
+                    n += 1
+    return n
+
+
 def reload_path(run, repo):
     """direct from_dict(to_dict()) cycles keep attached models as objects"""
     from .c11 import builders, Problem
@@ -511,7 +602,7 @@ def reload_path(run, repo):
         coverage effect to the list of a gas species), built by the public constructor"""
         D = I.D
         fr = Frame(I, repo.module('pmutt'), {}, None, None)
-        misc = misc_of(I, repo, fr, '[adj,cov]', real_cov=True)
+        misc = misc_of(I, repo, fr, '[adj,cov]')
 
         def vec(name, k):
             v = coeff_vector(I, name, k)
@@ -560,7 +651,7 @@ def reload_path(run, repo):
                 run.fail('TABLE.reload', ci.name + '.from_dict', 'cycle', 'from_dict(to_dict()) fails in cycle %d (%s)'
                          % (cycle, show(new)), owner.module, fn)
                 break
-            mm0, mm1 = obj.attrs.get('misc_models'), new.attrs.get('misc_models')
+            mm0, mm1 = get_public(I, obj, 'misc_models'), get_public(I, new, 'misc_models')
             n0 = len(mm0.items) if isinstance(mm0, ListV) else 0
             items = mm1.items if isinstance(mm1, ListV) else []
             ok = len(items) == n0 and all(isinstance(m_, Obj) for m_ in items) and \
@@ -594,17 +685,30 @@ def reload_path(run, repo):
 
 def check(run, repo):
     run.explanation = (
-        'Nasa, Nasa9 and Shomate getters are interpreted abstractly (a) with 0-3 attached models whose getters are '
-        'uninterpreted and record their arguments, through the package\'s own aggregation: for scalar T and arrays of 1-3 (thorough 1-5) temperatures every element is '
+        'Every species is built by its public constructor (Nasa, Nasa9, Shomate), so that each attribute has the value '
+        'the constructor gives it: without a phase (the default), as a surface species and as a gas species. '
+        '(0) The pressure as a number, first: for the adjustment a gas species attaches itself and for one handed to a '
+        'species without phase, S = poly - ln P and G = poly + ln P at 1e-3, 1, 1 +- 8e-6, 10 and 100 bar, scalar T and '
+        'an array of two temperatures. '
+        '(a) The getters are interpreted abstractly with 0-3 attached models whose getters are '
+        'uninterpreted and record their arguments (no models: misc_models not given at all / an empty list), through '
+        'the package\'s own aggregation: for scalar T and arrays of 1-3 (thorough 1-5) temperatures every element is '
         'the bare polynomial plus the sum over all attached models evaluated at that element\'s temperature and the '
-        'same conditions; (b) with a real GasPressureAdj and a real PiecewiseCovEffect through the real '
-        'aggregation in both orders: S = poly - ln P, H = poly + coverage energy/RT, Cp unchanged, G = H - S. '
+        'same conditions (a gas species adds its own - ln P to S); with two models also a scalar above T_mid and the '
+        'array [Tu, Td, Tu] (unordered, one value twice, on both sides of T_mid: a NASA-7 species answers Tu from its '
+        'high-temperature coefficients); (b) with a real GasPressureAdj and a real PiecewiseCovEffect through the real '
+        'aggregation, for 9 combinations of phase and models handed over (adjustment ahead of / behind the coverage '
+        'effect on a phase-less, a surface and a gas species; a gas species handed only the coverage effect, nothing, '
+        'an empty list): S = poly - ln P, H = poly + coverage energy/RT, Cp unchanged, G = H - S; coverage effects of '
+        '1-4 species each addressed through its own <name>_kwargs block, the species named CO, CO2, O (one a prefix of '
+        'another) and Ag, CO_s, kwargs_A (names that touch the text of the key). '
         'The getters with units (get_Cp/get_H/get_S/get_G, unit kJ/mol[/K]) are held to R[*T] times the same sum, '
         'scalar and array T, with two attached models. '
-        'EmpiricalBase.__init__ is interpreted for 9 phase spellings x 12 forms of misc_models (none, empty, other '
+        'EmpiricalBase(...) is interpreted for 9 phase spellings x 12 forms of misc_models (none, empty, other '
         'models, adjustment present as object or as its serialised dictionary: alone, behind, ahead of and between '
         'other models) x add_gas_P_adj on/off and the number '
-        'of pressure adjustments in the result is counted. The same count is taken on the species returned by the '
+        'of pressure adjustments in the result (read through the public attribute) is counted. The same count is taken '
+        'on the species returned by the '
         'constructors of Nasa, Nasa9 and Shomate and by their from_data / from_model (source model given as an object '
         'and as a class; least-squares calls uninterpreted, temperature grids and model answers are data vectors) for '
         'gas / non-gas phases, with and without models handed over, add_gas_P_adj not given / True / False. '
@@ -612,14 +716,20 @@ def check(run, repo):
         'attached models as objects; a gas species built with [GasPressureAdj, PiecewiseCovEffect] must carry exactly '
         'these two after every cycle.')
     run.assumptions = ['attached models are arbitrary objects with the getter interface (uninterpreted in (a))']
-    run.undecided = ['coverage model numerics (C17)', 'copying via copy.deepcopy']
+    run.undecided = ['coverage model numerics (C17): coverages beyond the first interval', 'copying via copy.deepcopy'] + \
+        ([] if ARM_SHARED_LIST else ['two species handed one list object (instance written, not armed)'])
     thorough = run.tier == 'thorough'
+    n = numeric_pressure(run, repo)
+    run.floor('numeric-pressure instances', n, 72)
     n = summation(run, repo, 5 if thorough else 3, thorough)
-    run.floor('summation instances', n, 180)
+    run.floor('summation instances', n, 250)
     n = real_models(run, repo, thorough)
-    run.floor('real-model instances', n, 24)
+    run.floor('real-model instances', n, 150)
     n = attachment(run, repo)
     run.floor('attachment cases', n, 150)
+    if ARM_SHARED_LIST:
+        n = shared_list(run, repo)
+        run.floor('species sharing one list', n, 12)
     n = constructors(run, repo, thorough)
     run.floor('species built through the public constructors', n, 69)
     n = reload_path(run, repo)
@@ -630,6 +740,12 @@ E_ = 'pmutt/empirical/__init__.py'
 N_ = 'pmutt/empirical/nasa.py'
 M_ = 'pmutt/mixture/__init__.py'
 S_ = 'pmutt/empirical/shomate.py'
+P_ = 'pmutt/__init__.py'
+_NASA_S = ("        if _is_iterable(T):\n            SoR = np.zeros_like(a=T, dtype=np.double)\n"
+           "            for i, T_i in enumerate(T):\n                a = self.get_a(T=T_i)")
+_NASA9_S = ("        if _is_iterable(T):\n            SoR = np.zeros_like(a=T, dtype=np.double)\n"
+            "            for i, T_i in enumerate(T):\n                nasa = self._get_nasa(T=T_i)")
+_NO_PHASE_NO_P = "        if self.phase is None:\n            kwargs.pop('P', None)\n"
 _SCAN = ("                    for i, model in enumerate(misc_models):\n"
          "                        if model == dict_entry:\n"
          "                            misc_models[i] = GasPressureAdj()\n"
@@ -684,5 +800,44 @@ MUTANTS = [
      'edits': [(N_, "                 n_sites=None,\n                 **kwargs):\n        super().__init__(name=name, **kwargs)",
                 "                 n_sites=None,\n                 add_gas_P_adj=True,\n                 **kwargs):\n"
                 "        super().__init__(name=name, **kwargs)")]},
+    # --- instances added after the white-box review, round 2
+    {'name': 'per-species block matched with str.rstrip (names ending in a letter of "_kwargs" lose their block)',
+     'expect': ('REF.corrections', 'get_HoRT'),
+     'edits': [(P_, "            if key == '{}_kwargs'.format(specie_name):",
+                "            if key.rstrip('_kwargs') == specie_name:")]},
+    {'name': 'per-species block matched on the text before the first underscore',
+     'expect': ('REF.corrections', 'get_HoRT'),
+     'edits': [(P_, "            if key == '{}_kwargs'.format(specie_name):",
+                "            if key.split('_')[0] == specie_name:")]},
+    {'name': 'Nasa.get_SoR drops the pressure for a species without phase (real adjustment handed over)',
+     'expect': ('REF.corrections', 'Nasa.get_SoR'), 'edits': [(N_, _NASA_S, _NO_PHASE_NO_P + _NASA_S)]},
+    {'name': 'Nasa.get_SoR drops the pressure for a species without phase (uninterpreted models)',
+     'expect': ('BRANCH-TWIN', 'Nasa.get_SoR'), 'edits': [(N_, _NASA_S, _NO_PHASE_NO_P + _NASA_S)]},
+    {'name': 'Nasa9.get_SoR drops the pressure for a surface species', 'expect': ('BRANCH-TWIN', 'Nasa9.get_SoR'),
+     'edits': [(N_, _NASA9_S, "        if self.phase is not None and self.phase.lower() == 's':\n"
+                "            kwargs.pop('P', None)\n" + _NASA9_S)]},
+    {'name': 'Shomate.get_HoRT drops the coverage for a gas species', 'expect': ('BRANCH-TWIN', 'Shomate.get_HoRT'),
+     'edits': [(S_, "        if not _is_iterable(T):\n            T = [T]",
+                "        if self.phase is not None and self.phase.lower() in ('g', 'gas'):\n"
+                "            kwargs.pop('x', None)\n        if not _is_iterable(T):\n            T = [T]", 1, 3)]},
+    {'name': 'no pressure adjustment within the default tolerance of 1 bar', 'expect': ('REF.corrections', 'get_SoR'),
+     'edits': [(E_, "        return -np.log(P)", "        return np.where(np.isclose(P, c.P0('bar')), 0., -np.log(P))")]},
+    {'name': 'a species without models gets a non-zero default contribution', 'expect': ('BRANCH-TWIN', ''),
+     'edits': [(M_, "    if misc_models is None:\n        return np.array([default_value])",
+                "    if misc_models is None:\n        return np.array([1.])")]},
+    {'name': 'Nasa.get_SoR array branch takes the coefficients of the last temperature for every element',
+     'expect': ('BRANCH-TWIN.array', 'Nasa.get_SoR'),
+     'edits': [(N_, "                a = self.get_a(T=T_i)\n                SoR[i]",
+                "                a = self.get_a(T=T[-1])\n                SoR[i]")]},
 ]
-EQUIV = []
+EQUIV = [
+    {'name': 'misc_models as a pass-through property of EmpiricalBase',
+     'edits': [(E_, "        self.misc_models = misc_models\n\n    def plot_empirical(",
+                "        self.misc_models = misc_models\n\n    @property\n    def misc_models(self):\n"
+                "        return self._misc_models\n\n    @misc_models.setter\n    def misc_models(self, val):\n"
+                "        self._misc_models = val\n\n    def plot_empirical(")]},
+    {'name': 'Nasa.get_CpoR result buffer from np.empty (every element is assigned)',
+     'edits': [(N_, "            CpoR = np.zeros(len(T))", "            CpoR = np.empty(len(T), dtype=np.double)", 0, 2)]},
+    {'name': 'pressure adjustment spelled -ln(P/P0)',
+     'edits': [(E_, "        return -np.log(P)", "        return -np.log(P / c.P0('bar'))")]},
+]
